@@ -47,6 +47,9 @@ FOCUS = {
     # markup nested two levels inside <pre> / <nowiki/>-disabled calls: cookies whose arguments hold further cookies
     # reach the tree as text and must be expanded back completely
     "pre": ["<pre>", "</pre>", "{{a|", "{{b}}", "}}", "[[a|", "]]", "{{{b}}}", "<nowiki/>", "\n", "a", "{{{c|"],
+    # markup inside HTML attribute values / names (the tag token is raw text: placeholders must not survive into node.attrs)
+    "attrs": ["<span", " title=", '"', "{{a}}", "<nowiki>q</nowiki>", "[x]", ">", "</span>", "x", "[[a|", "]]", " ", "<pre", "</pre>",
+              '[[a|<span title="', "[http://x.y <b id="],
     "urlchars": ["http://x.y", "https://", "//", "[", "]", " ", "a", ".", ",", "?", "=", "|", "<", "\n"],
 }
 
